@@ -463,8 +463,9 @@ Proof.
   - intros H.
     assert (Ha : a = 60) by (destruct a; try discriminate; repeat (destruct p; try discriminate); reflexivity).
     subst a. split; [reflexivity|].
-    apply andb_true_iff in H. destruct H as [_ H]. unfold ends_nl.
-    destruct (rev (60 :: c :: r)) as [|l t]; [reflexivity|]. apply N.eqb_eq in H. subst l. reflexivity.
+    apply andb_true_iff in H. destruct H as [_ H]. unfold ends_nl. revert H.
+    match goal with |- context [rev ?x] => destruct (rev x) as [|l t] end; [intros; reflexivity|].
+    intros H. apply N.eqb_eq in H. subst l. reflexivity.
 Qed.
 
 Lemma decl_head enc : head_ok (decl_of enc). Proof. reflexivity. Qed.
@@ -481,6 +482,7 @@ Proof.
   rewrite ltw_write_lines by assumption. f_equal.
   cbn [app ltw_write]. rewrite ltw_call_head by assumption. rewrite Hn. f_equal.
   destruct epi as [|x r]; [reflexivity|]. cbn [null].
+  change (flat_map (fun s : list char => LF :: s) (x :: r)) with (flat_map (fun s : list char => [LF] ++ s) (x :: r)).
   rewrite <- (epi_chunks_flat [LF] (x :: r)) by discriminate.
   cbn [ltw_write concat]. change (ltw_call false [LF]) with (true, [LF]). cbv iota beta. f_equal.
   rewrite ltw_write_lines by (apply Forall_removelast; assumption).
